@@ -3,10 +3,30 @@ package harness
 import (
 	"fmt"
 	"runtime"
+	"strings"
+	"sync/atomic"
 	"testing"
 	"testing/synctest"
 	"time"
+
+	"github.com/btcsuite/btclog/v2"
+	"github.com/lightninglabs/lightning-node-connect/gbn"
 )
+
+// hookLogger calls hook on every Tracef (with the logger's prefix and the format string).
+type hookLogger struct {
+	btclog.Logger
+	prefix string
+	hook   func(prefix, format string)
+}
+
+func (l *hookLogger) WithPrefix(p string) btclog.Logger {
+	return &hookLogger{Logger: l.Logger.WithPrefix(p), prefix: l.prefix + p, hook: l.hook}
+}
+
+func (l *hookLogger) Tracef(format string, params ...any) {
+	l.hook(l.prefix, format)
+}
 
 // C09, blocking half: with a mute peer the first N Sends return at the instant
 // they are called, the (N+1)-th stays blocked however long the peer stays
@@ -116,6 +136,137 @@ func TestGenC09(t *testing.T) {
 			q.stat("distinct_nontrivial", 1)
 			q.stat("blocking_scenarios", 1)
 		}
+	}
+	// a window emptied by other means than an ACK: both ACKs of a full window are lost, the transport duplicates
+	// the last DATA packet (in order), the receiver answers the duplicate with NACK(top) ("I have everything"),
+	// which empties the sender's window. The next Send finds a free window and must not wait for anything.
+	for _, n := range []int{1, 2, 3, 5} {
+		cfg := simCfg{id: fmt.Sprintf("nacktop%d", n), n: uint8(n), static: 2 * time.Second}
+		l.keep = l.keep[:0]
+		l.o.line("BEGIN %s n=%d chunk=0", cfg.id, n)
+		pan := bubble(t, func(t *testing.T) {
+			l.start = time.Now()
+			l.last = 0
+			base := runtime.NumGoroutine()
+			s := newSim(t, l, cfg)
+			if !s.cleanHandshake() {
+				q.fail("c09:handshake", cfg.id)
+				s.finish(base)
+				return
+			}
+			for i := 0; i < n; i++ {
+				s.send(0, []byte{byte(i), 7})
+			}
+			for i := 0; i < n; i++ {
+				s.recv(1)
+				if i == n-1 {
+					s.op(0, "keep") // delivered, and once more below: an in-order duplicate
+				}
+				s.op(0, "deliver")
+			}
+			// the server has answered with n ACKs and one NACK(top): lose the ACKs
+			for i := 0; i < n && s.chanLen(1) > 1; i++ {
+				s.op(1, "drop")
+			}
+			nack := s.chanLen(1) == 1
+			if s.canOp(1) {
+				s.op(1, "deliver")
+			}
+			t1 := time.Now()
+			s.send(0, []byte{0xAB})
+			sb, _ := s.busy(0)
+			q.check(!nack || (!sb && time.Since(t1) == 0), "c09:blocked-with-free-window:after-nack-emptied-window", func() string {
+				return fmt.Sprintf("n=%d: %d messages sent and received, their ACKs lost, the duplicate of the last DATA answered by NACK(top) which the sender received (window empty): the next Send did not return (busy=%v); events %v", n, n, sb, lastN(l.keep, 12))
+			})
+			q.stat("nack_top_scenarios", 1)
+			for k := 0; k < 50 && sb; k++ {
+				s.advance(250 * time.Millisecond)
+				sb, _ = s.busy(0)
+			}
+			synctest.Wait()
+			for _, g := range s.finish(base) {
+				q.fail("c12:leak:"+g, cfg.id)
+			}
+		})
+		l.o.line("END %s", cfg.id)
+		if pan != "" {
+			q.fail("gbn:bubble-panic", cfg.id+": "+truncate(pan, 300))
+		}
+		q.stat("distinct_nontrivial", 1)
+	}
+	// the acknowledgement that frees the window is processed in the gap between the send loop's "is the window full?"
+	// test and its wait for the wake-up. The gap is widened with nothing but the package logger (gbn.UseLogger, a
+	// public setter): the Tracef that sits between the two returns only after the receive loop has processed the ACK.
+	for _, n := range []int{1, 2, 4} {
+		cfg := simCfg{id: fmt.Sprintf("ackgap%d", n), n: uint8(n), static: 2 * time.Second}
+		l.keep = l.keep[:0]
+		l.o.line("BEGIN %s n=%d chunk=0", cfg.id, n)
+		pan := bubble(t, func(t *testing.T) {
+			l.start = time.Now()
+			l.last = 0
+			base := runtime.NumGoroutine()
+			s := newSim(t, l, cfg)
+			var armed, fired atomic.Bool
+			gbn.UseLogger(&hookLogger{Logger: btclog.Disabled, hook: func(prefix, format string) {
+				if !strings.Contains(prefix, "client") || format != "The queue is full." || !armed.CompareAndSwap(true, false) {
+					return
+				}
+				// we are on the client's send goroutine, after size() >= n was seen and before the select:
+				// let the peer receive everything and let this side process all the ACKs
+				for k := 0; k < n; k++ {
+					s.opNoWait(0, "deliver")
+					for s.chanLen(1) == 0 {
+						time.Sleep(time.Microsecond)
+					}
+					before := s.rxCalls[0].Load()
+					s.opNoWait(1, "deliver")
+					for s.rxCalls[0].Load() == before {
+						time.Sleep(time.Microsecond)
+					}
+				}
+				fired.Store(true)
+			}})
+			defer gbn.UseLogger(btclog.Disabled)
+			if !s.cleanHandshake() {
+				q.fail("c09:handshake", cfg.id)
+				s.finish(base)
+				return
+			}
+			for i := 0; i < n; i++ {
+				s.recv(1)
+			}
+			for i := 0; i < n; i++ {
+				if i == n-1 {
+					armed.Store(true)
+				}
+				s.send(0, []byte{byte(i), 9})
+			}
+			for k := 0; k < 10000 && !fired.Load(); k++ {
+				s.advance(time.Microsecond)
+			}
+			synctest.Wait()
+			s.send(0, []byte{0xAC})
+			sb, _ := s.busy(0)
+			q.check(!fired.Load() || !sb, "c09:blocked-with-free-window:ack-processed-between-check-and-wait", func() string {
+				return fmt.Sprintf("n=%d: %d messages sent, received and acknowledged, all ACKs processed by the sender while its send loop was between the window test and the wait: the next Send did not return (busy=%v); events %v", n, n, sb, lastN(l.keep, 10))
+			})
+			if fired.Load() {
+				q.stat("ack_in_the_gap_scenarios", 1)
+			}
+			for k := 0; k < 50 && sb; k++ {
+				s.advance(250 * time.Millisecond)
+				sb, _ = s.busy(0)
+			}
+			synctest.Wait()
+			for _, g := range s.finish(base) {
+				q.fail("c12:leak:"+g, cfg.id)
+			}
+		})
+		l.o.line("END %s", cfg.id)
+		if pan != "" {
+			q.fail("gbn:bubble-panic", cfg.id+": "+truncate(pan, 300))
+		}
+		q.stat("distinct_nontrivial", 1)
 	}
 	q.sample(fmt.Sprintf("n=%v x {static, adaptive}: n Sends, one more blocked, 7 s mute, one ACK; last events %v", ns, firstN(l.keep, 14)))
 }
